@@ -198,6 +198,15 @@ class Built:
             if entry.get("inline") and not entry.get("base"):
                 # the other public way to declare a model
                 cls = Object.inline(entry["name"], properties=dict(props), **kwds)
+            elif entry.get("metacall") and entry.get("base"):
+                # created by calling the metaclass, the way Object.inline, the
+                # parser and the library's own tests create models
+                from statham.schema.elements.meta import ObjectClassDict, ObjectMeta
+
+                classdict = ObjectClassDict()
+                for attr, prop in props:
+                    classdict[attr] = prop
+                cls = ObjectMeta(entry["name"], (base,), classdict, **kwds)
             else:
                 bases = (base,)
                 if entry.get("mixin") and entry.get("base"):
